@@ -88,3 +88,17 @@ class ExtraAgent(ss.Intervention):
             new = self.sim.people.grow(1, new_slots=np.array([987654]))
             self.sim.people.female[new] = False
             self.sim.people.age[new] = 5.0
+
+
+class PreUsed(ss.Intervention):
+    """Owns distributions that had a life before the sim: created non-strict and sampled stand-alone (as in a notebook) before being handed over."""
+    def __init__(self, **kw):
+        super().__init__(**kw)
+        self.d_a = ss.normal(loc=1.0, scale=2.0, strict=False)
+        self.d_b = ss.normal(loc=1.0, scale=2.0, strict=False)
+        self.u_a = ss.random(strict=False)
+        self.pre = [self.d_a.rvs(7).tolist(), self.d_b.rvs(3).tolist(), self.u_a.rvs(11).tolist()]     # stand-alone use
+        self.vals = []
+    def step(self):
+        au = self.sim.people.auids
+        self.vals.append((self.d_a.rvs(au[:6]).tolist(), self.d_b.rvs(au[:6]).tolist(), self.u_a.rvs(au[:6]).tolist()))
